@@ -101,7 +101,9 @@ def generate(rng, run, tier):
             'flavour': 'generic' if generic else rng.choice([None, None, None, 'list_int', 'dict_str_int']) if (placement not in ('closure', 'closure_method') or rng.random() < 0.15) else None,
             # the same source is executed a second time in a second module with its own classes (same names):
             # nothing resolved or generated for the first scope may leak into the second
-            'two_scopes': rng.random() < 0.5}
+            'two_scopes': rng.random() < 0.5,
+            # (drawn last) the kind of the annotated callable
+            'ckind': rng.choice(['func', 'func', 'func', 'gen', 'agen', 'coro'])}
 
 
 def _partial(text):
@@ -118,26 +120,59 @@ def _source(case):
     else:
         ann = repr(case['text'])
     head = ['from __future__ import annotations'] if case['style'] == 'postponed' else []
-    head += ['from beartype import beartype', 'from typing import Generic, Optional, TypeVar, Union', "TV = TypeVar('TV')"]
+    head += ['from beartype import beartype', 'from typing import AsyncIterator, Coroutine, Generic, Iterator, Optional, TypeVar, Union',
+             "TV = TypeVar('TV')"]
     local = 'class Local(Generic[TV]): pass' if case.get('flavour') == 'generic' else 'class Local: pass'
+    # the kind of the annotated callable: plain function, generator, asynchronous generator, coroutine (explicit Coroutine[...]
+    # return form); its return annotation wraps the same text and is a string / postponed exactly like the parameter's
+    kw, stmt, fmt = CKINDS[case.get('ckind', 'func')]
+    if case['style'] == 'postponed':
+        rann = fmt % case['text']
+    elif case['style'] == 'partial' and '|' not in case['text']:
+        rann = fmt % _partial(case['text'])
+    else:
+        rann = repr(fmt % case['text'])
     p = case['placement']
     if p == 'module':
-        body = ['@beartype', 'def f(a: %s) -> %s:' % (ann, ann), '    return a']
+        body = ['@beartype', '%s f(a: %s) -> %s:' % (kw, ann, rann), '    %s a' % stmt]
     elif p == 'method':
-        body = ['@beartype', 'class Outer:', '    Tag = Early', '    def m(self, a: %s) -> %s:' % (ann, ann), '        return a',
+        body = ['@beartype', 'class Outer:', '    Tag = Early', '    %s m(self, a: %s) -> %s:' % (kw, ann, rann), '        %s a' % stmt,
                 'f = Outer().m']
     elif p == 'nested_method':
         body = ['@beartype', 'class Outer:', '    Key = int', '    class Inner:', '        Tag = Early', '        Key = Early',
-                '        def m(self, a: %s) -> %s:' % (ann, ann),
-                '            return a', 'f = Outer.Inner().m', 'Inner = None']
+                '        %s m(self, a: %s) -> %s:' % (kw, ann, rann),
+                '            %s a' % stmt, 'f = Outer.Inner().m', 'Inner = None']
     elif p == 'closure_method':
         # a class decorated inside a function; its method names a local of that function defined after the class
-        body = ['def factory():', '    @beartype', '    class Holder:', '        def m(self, a: %s) -> %s:' % (ann, ann),
-                '            return a', '    ' + local, '    return Holder().m, Local', 'f, Local_ = factory()']
+        body = ['def factory():', '    @beartype', '    class Holder:', '        %s m(self, a: %s) -> %s:' % (kw, ann, rann),
+                '            %s a' % stmt, '    ' + local, '    return Holder().m, Local', 'f, Local_ = factory()']
     else:
-        body = ['def factory():', '    @beartype', '    def clo(a: %s) -> %s:' % (ann, ann), '        return a',
+        body = ['def factory():', '    @beartype', '    %s clo(a: %s) -> %s:' % (kw, ann, rann), '        %s a' % stmt,
                 '    ' + local, '    return clo, Local', 'f, Local_ = factory()']
+    if case.get('ckind', 'func') != 'func':
+        body.append('f = _c07_drive(f)')
     return '\n'.join(head + body) + '\n'
+
+
+CKINDS = {'func': ('def', 'return', '%s'), 'gen': ('def', 'yield', 'Iterator[%s]'), 'agen': ('async def', 'yield', 'AsyncIterator[%s]'),
+          'coro': ('async def', 'return', 'Coroutine[object, object, %s]')}
+
+
+def _drive_for(ckind):
+    """callable -> one-argument callable returning the value the generator yields / the coroutine returns."""
+    def run(coro):
+        try:
+            coro.send(None)
+        except StopIteration as e:
+            return e.value
+        raise RuntimeError('suspended')
+    if ckind == 'gen':
+        return lambda f: (lambda x: next(f(x)))
+    if ckind == 'agen':
+        return lambda f: (lambda x: run(f(x).__anext__()))
+    if ckind == 'coro':
+        return lambda f: (lambda x: run(f(x)))
+    return lambda f: f
 
 
 def _resolve(name, mod):
@@ -250,6 +285,7 @@ def _run_scope(case, modname, probes):
     mod = types.ModuleType(modname)
     sys.modules[modname] = mod
     mod.__dict__['Early'] = _mkcls('Early', modname, case.get('flavour'))
+    mod.__dict__['_c07_drive'] = _drive_for(case.get('ckind', 'func'))
     other = type('Unrelated', (), {'__module__': modname})
     viol = None
     calls = []          # (event index, kind, draw, outcome, resolved?)
@@ -328,10 +364,26 @@ def _run_scope(case, modname, probes):
                 except Exception as e:      # noqa
                     return ('harness_twin_eval', repr(e), 'harness')
 
-                def g(a):
-                    return a
-                g.__annotations__ = {'a': hint, 'return': hint}
-                twin = beartype(g)
+                ck = case.get('ckind', 'func')
+                import typing as _t
+                if ck == 'gen':
+                    def g(a):
+                        yield a
+                    rhint = _t.Iterator[hint]
+                elif ck == 'agen':
+                    async def g(a):
+                        yield a
+                    rhint = _t.AsyncIterator[hint]
+                elif ck == 'coro':
+                    async def g(a):
+                        return a
+                    rhint = _t.Coroutine[object, object, hint]
+                else:
+                    def g(a):
+                        return a
+                    rhint = hint
+                g.__annotations__ = {'a': hint, 'return': rhint}
+                twin = _drive_for(ck)(beartype(g))
                 tcls = _resolve(case['T'], mod)
                 for (i, x_kind, draw, out, resolved, had_t) in calls:
                     if not resolved or not had_t:
